@@ -505,10 +505,28 @@ def _loop_filters(method):
     tests = []
     for stmt in loop[0].body:
         if isinstance(stmt, ast.If) and not stmt.orelse and isinstance(stmt.body[-1], ast.Continue):
-            tests.append((ast.unparse(stmt.test), compile(ast.Expression(stmt.test), "<%s filter>" % method, "eval")))
-    if not tests:
+            tests.append((ast.unparse(stmt.test), compile(ast.Expression(stmt.test), "<%s filter>" % method, "eval"), None))
+        elif isinstance(stmt, ast.Assign) and len(stmt.targets) == 1 and isinstance(stmt.targets[0], ast.Name):
+            # a local the later filters may be written in terms of: bound when its value is computable from the record, the options and the
+            # earlier locals (assignments that call into the pipeline keep the value the harness supplies)
+            tests.append((ast.unparse(stmt), compile(ast.Expression(stmt.value), "<%s local>" % method, "eval"), stmt.targets[0].id))
+    if not any(t[2] is None for t in tests):
         raise front.Missing("no filter statements found in " + method)
     return tests
+
+
+def _fired_filters(tests, env):
+    fired = []
+    for src, code, target in tests:
+        if target is None:
+            if eval(code, env):
+                fired.append(src)
+        else:
+            try:
+                env[target] = eval(code, env)
+            except Exception:
+                pass
+    return fired
 
 
 @finite("C05.read_filters", ["C05"], note="the `if ...: continue` filters of AlignmentCollector.process_genic / process_intergenic, extracted from the "
@@ -537,7 +555,7 @@ def c05_read_filters(tier, rng):
                    "alignment_info": types.SimpleNamespace(read_exons=[(10 * i + 1, 10 * i + 5) for i in range(nex)]),
                    "read_assignment": types.SimpleNamespace(assignment_type=ty), "len": len}
             try:
-                fired = [src for src, code in tests if eval(code, env)]
+                fired = _fired_filters(tests, env)
             except Exception as e:
                 viol.append({"obligation": "C05.read_filters.%s" % method, "inputs": None, "observed": "filter not evaluable: %r" % e,
                              "required": "evaluable", "undecided": True})
